@@ -82,6 +82,7 @@ type State struct {
 	dead    bool
 	assignsEnv *assignsCtx
 	steps   int
+	cellFn  map[string]Val // closure values stored in local cells (captured variables holding func values)
 	arrival int
 	known   *knownSet
 	summary *summaryCtx
@@ -98,6 +99,10 @@ func (st *State) clone() *State {
 	n.private = make(map[string]bool, len(st.private))
 	for k, v := range st.private {
 		n.private[k] = v
+	}
+	n.cellFn = make(map[string]Val, len(st.cellFn))
+	for k, v := range st.cellFn {
+		n.cellFn[k] = v
 	}
 	n.iters = make(map[ssa.Value]*mapIter, len(st.iters))
 	for k, v := range st.iters {
@@ -348,6 +353,11 @@ func (st *State) load(addr string, t types.Type, root string) Val {
 	k := kindOf(t)
 	switch k {
 	case KInt, KBool, KAddr, KStr, KIface, KReal, KFunc:
+		if k == KFunc {
+			if cv, ok := st.cellFn[addr]; ok {
+				return cv
+			}
+		}
 		h := st.heap(heapFor(k, t))
 		term := st.define("ld", sortOfKind(k), "(select "+h+" "+addr+")")
 		v := Val{K: k, T: term, Ty: t}
@@ -411,6 +421,16 @@ func (st *State) store(addr string, v Val, t types.Type) {
 		term := v.T
 		if k == KFunc && term == "" {
 			term = st.e.funcID(v)
+		}
+		if k == KFunc {
+			if st.cellFn == nil {
+				st.cellFn = map[string]Val{}
+			}
+			if v.Fn != nil {
+				st.cellFn[addr] = v
+			} else {
+				delete(st.cellFn, addr)
+			}
 		}
 		st.setHeap(hn, "(store "+st.heap(hn)+" "+addr+" "+term+")")
 	case KSlice:
